@@ -25,5 +25,7 @@ sed -i 's/if ci > 0 {/if ci > 0 \&\& false { \/\/ VERIF: janitor goroutine not s
 [ -f "$TP/go-cache/go.mod" ] || printf 'module github.com/patrickmn/go-cache\n\ngo 1.12\n' > "$TP/go-cache/go.mod"
 # harness module: go.sum from the repository (same dependency graph)
 bin/gen_overlay.py >/dev/null
+# the go-statement rewriter (always rebuilt here; bin/build.sh builds it only if missing)
+(cd tools/goyield && $VERIF_GO build -o /verif/.build/goyield .)
 bin/build.sh >/dev/null
 echo "setup: ok"
